@@ -69,6 +69,11 @@ CHECKS["C13"] = ("model_checking",
     "Trusted: Ring.tla as design argument; the synthesiser is a driver only; simulation calibration is uniform. Known findings F4 and F8 are suppressed only by their signatures.",
     "§4 C13")
 
+CHECKS["C17"] = ("model_checking",
+    "Greedy.tla defines the plain one-sample-at-a-time non-negative greedy deconvolution, the production skip-ahead loop and the least-squares grid pick on exact (dyadic) values; TLC proves loop = plain sweep for every signal of length 5 (6) over five values x four responses x all admissible windows. The exact cases are replayed through the crate-private routines (hook H2) where every f64 operation is exact, so TLC's integers are the bit-exact expectation (inputs, residual sum, grid pick, sign of zero). On the shipped responses TLC validates shape/finiteness/non-negativity of pad and wire-block deconvolution, recovery of an isolated pulse on each of the 256 wires within 1e-6, and exact power-of-two scale covariance of whole events through try_from_banks on f64 bit-fields.",
+    "Bit-equality with the plain definition is decided on exact-arithmetic inputs only (TLA+ has no floats; on the shipped non-dyadic responses a reference would have to be numeric code). Wire output length is checked against the longest channel of the block.",
+    "§4 C17")
+
 NOT_APPLICABLE = {
     "C12": "population statistics of a floating-point pipeline against a physical forward model; TLA+/TLC has no reals or floats, so the spec cannot be the oracle",
     "C16": "decisive clause is a floating-point global minimisation over a continuum; only a numeric brute force could referee it, which is a different technique",
